@@ -33,8 +33,10 @@
 //!
 
 use crate::alias;
+use crate::chardef;
 use crate::def;
 use crate::math;
+use crate::mathchardef;
 use crate::registers;
 use std::collections::HashSet;
 use texcraft_stdext::collections::groupingmap;
@@ -75,7 +77,9 @@ impl Default for Tags {
             can_be_prefixed_with_any: vec![def::def_tag()].into_iter().collect(),
             can_be_prefixed_with_global: vec![
                 alias::let_tag(),
+                chardef::chardef_tag(),
                 math::variable_op_tag(),
+                mathchardef::mathchardef_tag(),
                 registers::countdef_tag(),
             ]
             .into_iter()
@@ -492,6 +496,8 @@ mod test {
             ("the", the::get_the()),
             ("def", def::get_def()),
             ("advance", math::get_advance()),
+            ("chardef", chardef::get_chardef()),
+            ("mathchardef", mathchardef::get_mathchardef()),
             (
                 "noOpExpansion",
                 command::BuiltIn::new_expansion(|_, _| Ok(())),
@@ -516,6 +522,36 @@ mod test {
                 many_prefixes,
                 r"\long\outer\global\long\global\outer\def\A{Hello}\A",
                 "Hello"
+            ),
+            (
+                chardef_local,
+                r"\chardef\A=1 {\chardef\A=2 \the\A}\the\A",
+                "21"
+            ),
+            (
+                chardef_global,
+                r"\chardef\A=1 {{\global\chardef\A=2 }\the\A}\the\A",
+                "22"
+            ),
+            (
+                chardef_global_scopes_one_assignment,
+                r"\i=5{\global\chardef\A=2 \i=8}\the\i",
+                "5"
+            ),
+            (
+                mathchardef_local,
+                r"\mathchardef\A=1 {\mathchardef\A=2 \the\A}\the\A",
+                "21"
+            ),
+            (
+                mathchardef_global,
+                r"\mathchardef\A=1 {{\global\mathchardef\A=2 }\the\A}\the\A",
+                "22"
+            ),
+            (
+                mathchardef_global_scopes_one_assignment,
+                r"\i=5{\global\mathchardef\A=2 \i=8}\the\i",
+                "5"
             ),
             (global_defs_1, r"\i=5{\globaldefs=1 \i=8}\the\i", "8"),
             (global_defs_2, r"\i=5{\globaldefs=-1\global\i=8}\the\i", "5"),
